@@ -1,6 +1,7 @@
 package main
 
 import (
+	"go/ast"
 	"fmt"
 	"os"
 	"go/constant"
@@ -381,6 +382,17 @@ func (ex *Exec) store(st *State, p Val, v Val) {
 		so = "Int"
 	}
 	ex.chanClassStore(st, p.Arr, el, v.T)
+	if want := ex.specs.FnFields[p.Arr]; want != "" && v.T != "0" {
+		// the field only ever holds the declared function (whose contract stands for calls through it)
+		goal := "false"
+		if v.Fn != nil && ex.prog.Keys[v.Fn] == want {
+			goal = "true"
+		}
+		ob := ex.oblige(st, "fnfield", fmt.Sprintf("%s#fnfield@%s", ex.curKey, smtSym(p.Arr)), []string{"*"}, goal, nil, "")
+		if ob != nil && goal == "true" {
+			ob.Trivial = false
+		}
+	}
 	st.write(p.Arr, so, p.T, v.T)
 	if strings.HasPrefix(p.Arr, "arr.") {
 		ex.cellVals[p.Arr+"@"+p.T] = v
@@ -963,7 +975,7 @@ func (ex *Exec) instrs(st *State, fr *Frame, b *ssa.BasicBlock, i int, k Cont) {
 		case *ssa.UnOp:
 			if x.Op == token.ARROW {
 				ch := ex.val(st, fr, x.X)
-				ex.ctxAware(st, fr, x, "recv", strings.HasPrefix(ch.Origin, "ctxdone:"))
+				ex.ctxAware(st, fr, x, "recv", strings.HasPrefix(ch.Origin, "ctxdone:"), strings.TrimPrefix(ch.Origin, "ctxdone:"))
 				fr.vals[x] = ex.doRecv(st, fr, x, ch, x.CommaOk, x.Type())
 				continue
 			}
@@ -993,12 +1005,19 @@ func (ex *Exec) simple(st *State, fr *Frame, in ssa.Instruction) {
 		if id, ok := x.Expr.(interface{ String() string }); ok {
 			_ = id
 		}
+		// only identifiers name variables: a selector h.ctx refers to the field object "ctx"
+		if _, isIdent := x.Expr.(*ast.Ident); !isIdent {
+			break
+		}
+		if vv, isVar := x.Object().(*types.Var); isVar && vv.IsField() {
+			break
+		}
 		if x.IsAddr {
 			if obj := x.Object(); obj != nil {
 				fr.names["&"+obj.Name()] = ex.val(st, fr, x.X)
 			}
 		} else if obj := x.Object(); obj != nil {
-			if _, isVar := obj.(*types.Var); isVar {
+			if vv, isVar := obj.(*types.Var); isVar && !vv.IsField() {
 				bindTo := x.X
 				if _, isConst := x.X.(*ssa.Const); isConst {
 					// x/tools v0.29 records the zero value at some definitions (md := T{}) although the
@@ -1331,7 +1350,7 @@ func resolveCell(v ssa.Value) (string, bool) {
 }
 
 // ctxAware: in functions marked ctxaware a blocking channel operation needs a ctx.Done() alternative.
-func (ex *Exec) ctxAware(st *State, fr *Frame, instr ssa.Instruction, what string, ok bool) {
+func (ex *Exec) ctxAware(st *State, fr *Frame, instr ssa.Instruction, what string, ok bool, ctxs ...string) {
 	sp := fr.spec
 	if sp != nil && sp.NonBlock != nil {
 		// reached only for blocking operations (plain send/receive, select without default)
@@ -1343,6 +1362,18 @@ func (ex *Exec) ctxAware(st *State, fr *Frame, instr ssa.Instruction, what strin
 	goal := "false"
 	if ok {
 		goal = "true"
+		if sp.CtxAware.Expr != nil {
+			// one of the Done channels waited on belongs to the named context
+			want := ex.evalSpec(st, fr, sp.CtxAware.Expr, nil)
+			if os.Getenv("GOATVC_DBG") != "" {
+				fmt.Printf("DBG ctxaware %s want=%s ctxs=%v names[ctx]=%v\n", fr.key, want.T, ctxs, fr.names["ctx"].T)
+			}
+			var alts []string
+			for _, c := range ctxs {
+				alts = append(alts, "(= "+c+" "+want.T+")")
+			}
+			goal = smtOr(alts...)
+		}
 	}
 	ex.oblige(st, "ctxaware", fmt.Sprintf("%s#ctxaware@%s#%d", fr.key, what, ex.ordinalOf(fr, instr, what)), sp.CtxAware.Labels, goal, sp.CtxAware, ex.posOf(instr))
 }
